@@ -16,10 +16,10 @@ ASSUMPTIONS = ["the server double implements our reading of the server's routing
                "python-axolotl's block-aligned padding defect is shimmed (third party)",
                "restarts happen only when nothing is in flight; eventual delivery is judged at quiescence with every party connected"]
 REQUIRED = ["runs", "wiring:full", "wiring:framed", "messages_sent", "deliveries_checked", "receipts_checked", "frames_scanned", "kind:text", "kind:image",
-            "target:group", "target:direct", "fault:dup", "fault:corrupt", "restarts", "sessions_bootstrapped", "retries_seen"]
+            "target:group", "target:direct", "fault:dup", "fault:corrupt", "restarts", "sessions_bootstrapped", "retries_seen", "lead_fields_checked", "kind:reply"]
 TIMEOUT = {"quick": 600, "thorough": 7200}
 
-KINDS = ["text", "text", "extended", "image", "location", "contact", "link"]
+KINDS = ["text", "text", "extended", "image", "location", "contact", "link", "reply"]
 STRATEGIES = ["uniform", "app-first", "app-last", "newest", "starve"]
 
 
@@ -51,6 +51,12 @@ class Msg(object):
         elif self.kind == "extended":
             e = ExtendedTextMessageProtocolEntity(ExtendedTextAttributes(mk + f["t1"], opt("http://x.example/" + mk), opt("http://x.example/c" + mk), opt(f["t2"]),
                                                                          opt("T" + mk), opt(self.bmarker), None), meta)
+        elif self.kind == "reply":
+            # a reply quoting an earlier message (the payload nests a second message)
+            from yowsup.layers.protocol_messages.protocolentities.attributes.attributes_context_info import ContextInfoAttributes
+            from yowsup.layers.protocol_messages.protocolentities.attributes.attributes_message import MessageAttributes
+            ctx = ContextInfoAttributes(stanza_id="Q" + mk, participant="4915770000000@s.whatsapp.net", quoted_message=MessageAttributes(conversation="QUOTED " + mk + f["t2"]))
+            e = ExtendedTextMessageProtocolEntity(ExtendedTextAttributes(mk + f["t1"], None, None, None, None, None, ctx), meta)
         elif self.kind == "link":
             e = ExtendedTextMediaMessageProtocolEntity(ExtendedTextAttributes(mk + f["t1"], "http://x.example/" + mk, "http://x.example/c" + mk, f["t2"], "T" + mk,
                                                                               self.bmarker, None), meta)
@@ -186,6 +192,23 @@ def check_world(acc, W, msgs, groups, w):
             ok = bad("wrong-sender", "message %s delivered with from=%s" % (m.uid, e.getFrom()), {"uid": m.uid})
         if e.getId() != m.entity_id:
             ok = bad("wrong-id", "message %s delivered under id %s (sent as %s)" % (m.uid, e.getId(), m.entity_id), {"uid": m.uid})
+        # the leading field of every kind, read from the delivered entity itself (independent of the library's converter)
+        ma = e.message_attributes
+        f_, mk_ = m.fields, m.marker
+        try:
+            lead = {"text": lambda: (ma.conversation, mk_ + " " + f_["t1"]),
+                    "extended": lambda: (ma.extended_text.text, mk_ + f_["t1"]),
+                    "link": lambda: (ma.extended_text.text, mk_ + f_["t1"]),
+                    "reply": lambda: ((ma.extended_text.text, ma.extended_text.context_info.quoted_message.conversation), (mk_ + f_["t1"], "QUOTED " + mk_ + f_["t2"])),
+                    "image": lambda: (ma.image.downloadablemedia_attributes.url, "https://mmg.example/" + mk_),
+                    "location": lambda: (ma.location.name, "N" + mk_),
+                    "contact": lambda: (ma.contact.display_name, "D" + mk_ + f_["t1"])}[m.kind]()
+        except Exception as ex:  # noqa
+            lead = ("<%s: %s>" % (type(ex).__name__, ex), None)
+        acc.count("lead_fields_checked")
+        if lead[0] != lead[1]:
+            ok = bad("content-lead-field:%s" % m.kind, "message %s (%s) reached %s with %r where the sender wrote %r" % (m.uid, m.kind, phone, lead[0], lead[1]), {"uid": m.uid})
+            continue
         got = AttributesConverter.get().message_to_protobytes(e.message_attributes)
         if got != m.proto:
             # a sender key distribution riding along is not content; compare without it
